@@ -345,6 +345,9 @@ func (c *Ctx) Violation(sig, what string, replay any) {
 		}
 	}
 	dir := filepath.Join(VerifRoot, "replays", c.Prop)
+	if d := os.Getenv("VERIF_EVIDENCE_DIR"); d != "" {
+		dir = filepath.Join(d, "replays", c.Prop)
+	}
 	_ = os.MkdirAll(dir, 0o755)
 	h := sha1.Sum([]byte(sig + what))
 	path := filepath.Join(dir, hex.EncodeToString(h[:6])+".json")
@@ -429,8 +432,12 @@ func (c *Ctx) Finish(runErr error) int {
 		ev["assumptions"] = []string{}
 	}
 	b, _ := json.MarshalIndent(ev, "", " ")
-	_ = os.MkdirAll(filepath.Join(VerifRoot, "evidence"), 0o755)
-	if err := os.WriteFile(filepath.Join(VerifRoot, "evidence", c.Prop+".json"), b, 0o644); err != nil {
+	evDir := filepath.Join(VerifRoot, "evidence")
+	if d := os.Getenv("VERIF_EVIDENCE_DIR"); d != "" { // runs against scratch trees (seeded changes) keep /verif/evidence intact
+		evDir = d
+	}
+	_ = os.MkdirAll(evDir, 0o755)
+	if err := os.WriteFile(filepath.Join(evDir, c.Prop+".json"), b, 0o644); err != nil {
 		fmt.Fprintf(os.Stderr, "cannot write evidence: %v\n", err)
 		return 2
 	}
